@@ -1,5 +1,6 @@
 import Unsized.MachineObserve
 import Unsized.PtrChainNotify
+import Unsized.PtrHonestM16
 /-!
 # C01 — Unsized values behave like their owned models under any operation history
 
@@ -203,5 +204,59 @@ example :
   exact (ptrs_fresh p exS exV (.list (.pod 1) 1) (.seq [[1]]) (.seq [[1], [9]]) g (by intro h; cases h) (by decide)
     g' rfl (List.replicate 64 0) [] 64 _ false 1 (by simp) (by decide +kernel) (by intro h; cases h) rfl
     (by decide +kernel) usz rfl (Ptr.self_notify_leaf _ _ _ _ _ _ _ rfl)).1
+
+
+/-! ## Stage C, full: the pointer objects of every live accessor along whole histories
+
+The machine is the C03 builder's pointer machine `Unsized/PtrMachine.lean` (what the `c03_model` driver
+executes line by line: `PtrM.execOp / execEnter / execLeave / execReborrow`, with `walk`, the prologue `runPre`,
+the events of the traced byte-machine op walked by `runEvs`, and the epilogue of `opAt`). `Ptr.PInv s w v` is the
+invariant: buffer `A` holds `encode s v` (the C01/C02 invariant, `Calm`), the live levels are nested accessor
+paths, and the top pointer object is HONEST for `v` along the innermost live level — every own pointer is what
+`get_ptr` returns on the current bytes (`Ptr.Hon`, `Ptr.hon_treeOf`, `Ptr.getPtr_encode`), every `UnsizedListPtr`
+caches in `inner_exclusive` nothing, or an honest pointer of the element it was taken for (D1: forwarded by the
+notification), or what is left of one after the list itself was edited (a uniformly shifted pointer inside the
+list's range; D1b: `remove_range`/`clear`/`pop` drop it first), and `PtrM.locTree` finds the pointer each live
+accessor holds (`Ptr.locTree_honPath`, `Ptr.honPath_close`). -/
+
+open Unsized.PtrM Unsized.Ptr in
+/-- **`ptrs_fresh_step`** — one line (`enter` / `leave` / `reborrow` / any covered op with any accessor chain
+below the innermost live level) keeps every live pointer object fresh and does not panic. -/
+theorem ptrs_fresh_step {s : Shape} {w : World} {v : Val} (inv : PInv s w v) (c : Cmd) (hok : LineOk s w c) :
+    isPanic (pstep s w c).2 = false ∧ ∃ v', PInv s (pstep s w c).1 v' :=
+  Ptr.ptrs_fresh_step inv c hok
+
+open Unsized.PtrM Unsized.Ptr in
+/-- **`ptrs_fresh_history`** — from a fresh top accessor over a well-formed value (the state `mkBuf` builds),
+after ANY history of `enter` / `leave` / `reborrow` / ops whose side conditions hold (`HistOkP`: C01's `CmdOk` at
+node level, and the op is `Covered`), no line panics and every live pointer object is fresh. -/
+theorem ptrs_fresh_history (s : Shape) (v : Val) (base : Nat) (B : PBuf) (cmds : List Cmd) (hok : s.ok = true)
+    (hnd : ∀ d i, s ≠ .disc d i) (hwf : WF s v = true)
+    (hsmall : (encode s v).length + maxIncrease < Shape.u32Lim)
+    (hfar : (encode s v).length + maxIncrease ≤ base)
+    (hbig : base + 2 * ((encode s v).length + maxIncrease) < Shape.usizeLim)
+    (hhist : HistOkP s ⟨⟨⟨encode s v, (encode s v).length, 0, []⟩, base, treeOf s v base, [[]], false, false⟩, B⟩ cmds) :
+    let w0 : World := ⟨⟨⟨encode s v, (encode s v).length, 0, []⟩, base, treeOf s v base, [[]], false, false⟩, B⟩
+    (∀ a ∈ (prun s w0 cmds).2, isPanic a = false) ∧ ∃ v', PInv s (prun s w0 cmds).1 v' :=
+  Ptr.ptrs_fresh_history s cmds _ v (pinv_init s v base B hok hnd hwf hsmall hfar hbig) hhist
+
+open Unsized.PtrM Unsized.Ptr in
+/-- **`checkTop_passes`** — on honest histories `check_pointers` of the top pointer object with the allocation
+range is `true`: the `debug_assert!`s of `add_bytes` / `remove_bytes` and `ExclusiveTopDrop::drop` never fire
+(the positive half of C03's swap theorem). -/
+theorem checkTop_passes (s : Shape) (cmds : List Cmd) (w : World) (v : Val) (inv : PInv s w v)
+    (hok : HistOkP s w cmds) :
+    PtrT.checkTop (prun s w cmds).1.a.rng (prun s w cmds).1.a.root = true
+    ∧ (endBuf (prun s w cmds).1 .A).2 = true :=
+  Ptr.checkTop_passes s cmds w v inv hok
+
+open Unsized.PtrM Unsized.Ptr in
+/-- Non-vacuity: the invariant holds for the depth-3 example at the C03 driver's address of buffer `A`, and the
+two `enter` lines of the example history keep it (two live accessors, `inner_exclusive` armed). -/
+example : ∃ v', PInv exS (prun exS ⟨⟨⟨encode exS exV, (encode exS exV).length, 0, []⟩, 1048576,
+      treeOf exS exV 1048576, [[]], false, false⟩, default⟩ [.enter (.field 1), .enter (.elem 0)]).1 v' :=
+  (Ptr.ptrs_fresh_history exS [.enter (.field 1), .enter (.elem 0)] _ exV
+    (pinv_init exS exV 1048576 default (by decide) (by intro d i h; cases h) (by decide +kernel) (by decide +kernel)
+      (by decide +kernel) (by decide +kernel)) ⟨trivial, trivial, trivial⟩).2
 
 end Unsized.C01
